@@ -249,6 +249,8 @@ class World:
             if c is BUILTINS['str']:
                 res = res or isinstance(v, str) or (isinstance(v, V) and v.ty in (ATOM, STR))
             elif c is BUILTINS['int']:
+                if isinstance(v, V) and isinstance(v.ty, Opt) and v.ty.inner == INT:
+                    return V(z3.Not(v.ty.is_none(v.t)), BOOL)       # an optional int is an int exactly when it is not None
                 res = res or (isinstance(v, int) and not isinstance(v, bool)) or (isinstance(v, V) and v.ty == INT)
             elif c is BUILTINS['list']:
                 res = res or isinstance(v, list) or (isinstance(v, C) and (isinstance(v.ty, SeqOf) or getattr(v.ty, 'listlike', False)))
